@@ -61,9 +61,10 @@ def run(ctx):
     distinct = len({bytes(i["bytes"]) for i in inputs})
     for prof, binary in (("release", rel), ("checked", chk)):
         opath = ctx.path("out_%s.ndjson" % prof)
-        res = ctx.isolated(binary, ["run", ipath, opath], len(inputs), opath, per_case_timeout=ctx.pick(10, 60))
-        if len(res) != len(inputs):
+        res = ctx.isolated(binary, ["run", ipath, opath], len(inputs), opath, per_case_timeout=ctx.pick(10, 60), max_dead=40)
+        if len(res) != len(inputs) and not ctx.extra.get("cases_not_run"):
             raise vlib.ToolError("worker returned %d results for %d inputs" % (len(res), len(inputs)))
+        # (after 40 dead / hung cases the run stops: the results then cover a prefix of the inputs, all of them violations already)
         events = []
         for inp, r in zip(inputs, res):
             if "out" in r:
